@@ -69,11 +69,17 @@ func ZZ_C19_Pairs() {
 		})
 		a(func() { _, _ = ls.Get(context.Background(), 7); _, _ = ls.Get(context.Background(), 1) })
 		a(func() { s.Delete(1); s.Set(7, 700, 1, 0) })
+	case 10: // Close || Len / Range
+		a(func() { s.Close() })
+		a(func() { _ = s.Len(); s.Range(func(k, v uint64) bool { return true }) })
+	case 11: // Close || EstimatedSize / Stats / Delete
+		a(func() { s.Close() })
+		a(func() { _ = s.EstimatedSize(); _ = s.Stats(); s.Delete(1) })
 	}
 	<-done
 	<-done
 	vfSetPreemptions(0)
-	if pair != 5 {
+	if pair != 5 && pair < 10 {
 		s.Wait()
 	}
 	vfQuiesce()
